@@ -213,3 +213,63 @@ func loopAnchor(reg ssa.Instruction) ssa.Instruction {
 	}
 	return nil
 }
+
+// elemOfLiteral: v is the element, at the loop's index, of a slice/array
+// literal (for _, x := range []T{a, b}); returns the literal's backing array.
+func elemOfLiteral(v ssa.Value) (*ssa.Alloc, bool) {
+	u, ok := stripConv(resolveCell(v), false).(*ssa.UnOp)
+	if !ok || token.MUL != u.Op {
+		return nil, false
+	}
+	ia, ok := u.X.(*ssa.IndexAddr)
+	if !ok {
+		return nil, false
+	}
+	if _, isConst := ia.Index.(*ssa.Const); isConst {
+		return nil, false
+	}
+	x := ia.X
+	if sl, ok := x.(*ssa.Slice); ok && nil == sl.Low && nil == sl.High {
+		x = sl.X
+	}
+	/* The slice may sit in a local variable. */
+	x = resolveCell(x)
+	if sl, ok := x.(*ssa.Slice); ok && nil == sl.Low && nil == sl.High {
+		x = sl.X
+	}
+	arr, ok := x.(*ssa.Alloc)
+	if !ok {
+		return nil, false
+	}
+	if _, isArr := arr.Type().Underlying().(*types.Pointer).Elem().Underlying().(*types.Array); !isArr {
+		return nil, false
+	}
+	return arr, true
+}
+
+// literalElems returns the values stored into the elements of an array
+// literal; ok is false when an element is missing or written twice.
+func literalElems(arr *ssa.Alloc) (map[int64]ssa.Value, bool) {
+	n := arr.Type().Underlying().(*types.Pointer).Elem().Underlying().(*types.Array).Len()
+	out := map[int64]ssa.Value{}
+	ok := true
+	for _, ref := range *arr.Referrers() {
+		ia, isIA := ref.(*ssa.IndexAddr)
+		if !isIA {
+			continue
+		}
+		k, isC := constInt(ia.Index)
+		if !isC {
+			continue
+		}
+		for _, r2 := range *ia.Referrers() {
+			if st, isSt := r2.(*ssa.Store); isSt && st.Addr == ssa.Value(ia) {
+				if _, dup := out[k]; dup {
+					ok = false
+				}
+				out[k] = st.Val
+			}
+		}
+	}
+	return out, ok && int64(len(out)) == n
+}
